@@ -811,10 +811,10 @@ class SyncGroupBase:
             await gather(*[t.to_operational(MachineState.SAFE_OPERATIONAL)
                            for t, rw in self.terminals.items()])
             future = self.ec.roundtrip_packet(data, self.packet_index)
-            await gather(*[t.set_state(MachineState.OPERATIONAL)
-                           for t, rw in self.terminals.items() if rw])
-            self.wkc_errors = 1  # write actions are ignored before
             try:
+                await gather(*[t.set_state(MachineState.OPERATIONAL)
+                               for t, rw in self.terminals.items() if rw])
+                self.wkc_errors = 1  # write actions are ignored before
                 while self.running:
                     try:
                         data = await wait_for(future, timeout=0.02)
